@@ -272,11 +272,12 @@ type vf15Case struct {
 	Trailing   string // "", or what follows the real config in the list: a second usable config (key rotation) / an unknown version
 	RetryCount int    // reject: number of configs the server offers for retry (>= 1)
 	OlderKeys  int    // accept: number of other keys (other config ids / key pairs) the server lists BEFORE the matching one
+	SpecPath   string // "" = predefined ID; "custom" = HelloCustom + ApplyPreset(UTLSIdToSpec(ID)); "custom-sni" = the same with SNIExtension.ServerName already filled in by the caller
 }
 
 func (c vf15Case) String() string {
-	return fmt.Sprintf("%s/%s id=%d suites=%v maxname=%d public=%q secret=%q leading=%q trailing=%q retry=%d olderkeys=%d seed=%d",
-		c.Ident.Name, c.Mode, c.ConfigID, c.Suites, c.MaxNameLen, c.Public, c.Secret, c.Leading, c.Trailing, c.RetryCount, c.OlderKeys, c.Seed)
+	return fmt.Sprintf("%s/%s id=%d suites=%v maxname=%d public=%q secret=%q leading=%q trailing=%q retry=%d olderkeys=%d specpath=%q seed=%d",
+		c.Ident.Name, c.Mode, c.ConfigID, c.Suites, c.MaxNameLen, c.Public, c.Secret, c.Leading, c.Trailing, c.RetryCount, c.OlderKeys, c.SpecPath, c.Seed)
 }
 
 const vf15Alnum = "abcdefghijklmnopqrstuvwxyz0123456789"
@@ -342,6 +343,9 @@ func vf15GenCase(rt *rapid.T, idents []vf15Ident) vf15Case {
 	}
 	c.RetryCount = rapid.IntRange(1, 2).Draw(rt, "retryCount")
 	c.OlderKeys = rapid.IntRange(0, 3).Draw(rt, "olderServerKeys")
+	if !c.Ident.Golang {
+		c.SpecPath = rapid.SampledFrom([]string{"", "", "custom", "custom-sni"}).Draw(rt, "specPath")
+	}
 	return c
 }
 
@@ -515,6 +519,26 @@ func vf15Run(st *vfStats, t vfFataler, c vf15Case) {
 	}
 
 	pair := vfNewPair(ccfg, c.Ident.ID, scfg)
+	if c.SpecPath != "" && !c.Ident.Golang {
+		// the same fingerprint through the custom-spec path; a hand-written spec often names the host in its SNIExtension
+		spec, err := UTLSIdToSpec(c.Ident.ID)
+		if err != nil {
+			fail("UTLSIdToSpec: %v", err)
+		}
+		if c.SpecPath == "custom-sni" {
+			for _, e := range spec.Extensions {
+				if sni, ok := e.(*SNIExtension); ok {
+					sni.ServerName = c.Secret
+				}
+			}
+		}
+		pair.Close()
+		pair = vfNewPair(ccfg, HelloCustom, scfg)
+		if err := pair.Cli.ApplyPreset(&spec); err != nil {
+			fail("ApplyPreset: %v", err)
+		}
+		st.Class("spec-path:" + c.SpecPath)
+	}
 	defer pair.Close()
 	res.cerr, res.serr = pair.Handshake()
 	written := pair.CP.Written()
@@ -723,7 +747,7 @@ func vf15DirectedCase(id vf15Ident, mode string, n int) vf15Case {
 		Ident: id, Mode: mode, Seed: uint64(1000 + n),
 		Secret: fmt.Sprintf("hidden%02dservicename.c15.test", n), SecretRand: fmt.Sprintf("hidden%02dservicename", n),
 		Public: "public.c15.test", ConfigID: uint8(17 * n), Suites: []vf15Suite{{1, 1}, {1, 2}, {1, 3}},
-		MaxNameLen: uint8(n * 37), RetryCount: 1 + n%2, OlderKeys: n % 3,
+		MaxNameLen: uint8(n * 37), RetryCount: 1 + n%2, OlderKeys: n % 3, SpecPath: []string{"", "custom-sni", "custom", ""}[n%4],
 	}
 }
 
